@@ -332,10 +332,10 @@ class Mitochondria:
         if pathway is None:
             pathway = self._detect_pathway(expression)
 
-        if not self.silent:
-            print(f"⚡ [Mitochondria] Metabolizing: {expression[:50]}...")
-
         try:
+            if not self.silent:
+                print(f"⚡ [Mitochondria] Metabolizing: {expression[:50]}...")
+
             if pathway == MetabolicPathway.GLYCOLYSIS:
                 result = self._glycolysis(expression)
             elif pathway == MetabolicPathway.KREBS_CYCLE:
